@@ -1,4 +1,203 @@
-import RecipeGrid.Model.Table
+import RecipeGrid.Lemmas.Table
+/-! C02 — the table layout: cells tile the grid, every node is drawn exactly once. -/
 namespace RG.C02
-theorem placeholder_trivial : (layout (.ingredient [] none)).h = 1 := by decide
+
+mutual
+/-- a well-formed tree: every step has at least one input (Python's grammar guarantees it) -/
+def wf : Tree → Bool
+  | .ingredient .. => true
+  | .reference .. => true
+  | .step _ inputs => !inputs.isEmpty && wfList inputs
+  | .sub body _ _ => wf body
+def wfList : List Tree → Bool
+  | [] => true
+  | t :: ts => wf t && wfList ts
+end
+
+def covers (x : PCell) (r c : Nat) : Bool :=
+  x.row ≤ r && r < x.row + x.rows && x.col ≤ c && c < x.col + x.cols
+def cover (cs : List PCell) (r c : Nat) : Nat := cs.countP (covers · r c)
+
+structure Tiles (t : Tbl) : Prop where
+  ok : ∀ x ∈ t.cells, 0 < x.rows ∧ 0 < x.cols ∧ x.row + x.rows ≤ t.h ∧ x.col + x.cols ≤ t.w
+  one : ∀ r c, r < t.h → c < t.w → cover t.cells r c = 1
+
+mutual
+private theorem wf_eq : ∀ t : Tree, wf t = RG.wf t
+  | .ingredient .. => rfl
+  | .reference .. => rfl
+  | .step _ inputs => by simp only [wf, RG.wf, wfList_eq inputs]
+  | .sub body _ _ => by simp only [wf, RG.wf, wf_eq body]
+private theorem wfList_eq : ∀ ts : List Tree, wfList ts = RG.wfList ts
+  | [] => rfl
+  | t :: ts => by simp only [wfList, RG.wfList, wf_eq t, wfList_eq ts]
+end
+
+/-- C02.1: for every well-formed tree the cells tile the h × w rectangle: no gaps, no overlaps -/
+theorem layout_tiles (t : Tree) (h : wf t = true) : Tiles (layout t) := by
+  have hg := layoutAt_good t [] true (wf_eq t ▸ h)
+  exact ⟨fun x hx => by have := hg.ok x hx; exact ⟨this.1, this.2.1, this.2.2.2.1, this.2.2.2.2.2⟩,
+    fun r c hr hc => hg.one r c (Nat.zero_le _) hr (Nat.zero_le _) hc⟩
+
+/-- the table is never empty -/
+theorem layout_nonempty (t : Tree) (h : wf t = true) : 0 < (layout t).h ∧ 0 < (layout t).w :=
+  (layoutAt_good t [] true (wf_eq t ▸ h)).ne
+
+mutual
+/-- the nodes that must get a cell, with the kind of cell, in the order the layout emits them -/
+def drawn (p : List Nat) : Tree → List (List Nat × CellKind)
+  | .ingredient .. => [(p, .ingredient)]
+  | .reference .. => [(p, .reference)]
+  | .step _ inputs => drawnInputs p 0 inputs ++ [(p, .step)]
+  | .sub body names showNames =>
+    if names.length = 1 then (if showNames then [(p, .header)] else []) ++ drawn (p ++ [0]) body
+    else drawn (p ++ [0]) body ++ [(p, .outputs)]
+def drawnInputs (p : List Nat) (i : Nat) : List Tree → List (List Nat × CellKind)
+  | [] => []
+  | t :: ts => drawn (p ++ [i]) t ++ drawnInputs p (i + 1) ts
+end
+
+mutual
+private theorem drawn_eq : ∀ (t : Tree) (p : List Nat), drawn p t = RG.drawn p t
+  | .ingredient .., _ => rfl
+  | .reference .., _ => rfl
+  | .step _ inputs, p => by simp only [drawn, RG.drawn, drawnInputs_eq inputs p 0]
+  | .sub body _ _, p => by simp only [drawn, RG.drawn, drawn_eq body (p ++ [0])]
+private theorem drawnInputs_eq : ∀ (ts : List Tree) (p : List Nat) (i : Nat),
+    drawnInputs p i ts = RG.drawnInputs p i ts
+  | [], _, _ => rfl
+  | t :: ts, p, i => by simp only [drawnInputs, RG.drawnInputs, drawn_eq t (p ++ [i]), drawnInputs_eq ts p (i + 1)]
+end
+
+/-- C02.2: every ingredient, reference, step, titled sub recipe and multi-output list gets exactly one cell of the right kind, nothing else does -/
+theorem layout_nodes_once (t : Tree) :
+    ((layout t).cells.map fun c => (c.path, c.kind)) = drawn [] t := by
+  rw [drawn_eq]; exact layoutAt_pk t [] true
+
+/-- distinct drawn nodes have distinct paths, so "exactly once" is meaningful -/
+theorem drawn_nodup (t : Tree) : ((drawn [] t).map (·.1)).Nodup := by
+  rw [drawn_eq]; exact drawn_nodup' t []
+
+
+-- ---------------------------------------------------------------- C02.4 regions
+
+/-- the cell belongs to the node at path `q` or to one of its descendants -/
+def under (q : List Nat) (x : PCell) : Bool := q.isPrefixOf x.path
+/-- the cells drawn for the subtree at `q` -/
+def cellsUnder (t : Tbl) (q : List Nat) : List PCell := t.cells.filter (under q)
+
+/-- a rectangle of grid slots: rows `top ≤ r < bottom`, columns `left ≤ c < right` -/
+structure Box where
+  top : Nat
+  left : Nat
+  bottom : Nat
+  right : Nat
+deriving DecidableEq, Repr
+
+/-- the region of the node at `q`: the bounding box of the cells of its subtree -/
+def region (t : Tbl) (q : List Nat) : Box :=
+  ⟨((cellsUnder t q).map (·.row)).min?.getD 0, ((cellsUnder t q).map (·.col)).min?.getD 0,
+   ((cellsUnder t q).map fun x => x.row + x.rows).max?.getD 0,
+   ((cellsUnder t q).map fun x => x.col + x.cols).max?.getD 0⟩
+
+/-- the cells fill the box exactly: none is empty or reaches outside, every slot inside is covered once -/
+structure TilesBox (cs : List PCell) (b : Box) : Prop where
+  nonempty : b.top < b.bottom ∧ b.left < b.right
+  inside : ∀ x ∈ cs, 0 < x.rows ∧ 0 < x.cols ∧ b.top ≤ x.row ∧ x.row + x.rows ≤ b.bottom ∧
+            b.left ≤ x.col ∧ x.col + x.cols ≤ b.right
+  one : ∀ r c, b.top ≤ r → r < b.bottom → b.left ≤ c → c < b.right → cover cs r c = 1
+
+private theorem region_eq (t : Tbl) (q : List Nat) :
+    region t q = ⟨(reg t.cells q).top, (reg t.cells q).left, (reg t.cells q).bottom, (reg t.cells q).right⟩ := rfl
+
+/-- C02.4: the cells of every subtree tile a rectangle (their bounding box), which lies inside the table -/
+theorem region_tiles (t : Tree) (h : wf t = true) (q : List Nat) (n : Tree) (hq : t.at? q = some n) :
+    TilesBox (cellsUnder (layout t) q) (region (layout t) q) ∧
+    (region (layout t) q).bottom ≤ (layout t).h ∧ (region (layout t) q).right ≤ (layout t).w := by
+  obtain ⟨h1, h2, h3⟩ := region_tiles' t (wf_eq t ▸ h) q n hq
+  exact ⟨⟨h1.ne, h1.ok, h1.one⟩, h2, h3⟩
+
+/-- the root's region is the whole table -/
+theorem region_root (t : Tree) (h : wf t = true) : region (layout t) [] = ⟨0, 0, (layout t).h, (layout t).w⟩ := by
+  rw [region_eq, reg_root t (wf_eq t ▸ h)]
+
+-- ---------------------------------------------------------------- C02.3 geometry of steps, titles and outputs
+
+/-- C02.3 (steps): the cell of the step at `q` exists, spans exactly the rows of the region of `q` and reaches its
+    right edge; its left edge is the common right edge of the inputs' regions, which start at the region's left edge
+    and are stacked without gaps from the region's top to its bottom; at the root the step is one column wide -/
+theorem step_geometry (t : Tree) (h : wf t = true) (q : List Nat) (d : SVS) (ins : List Tree)
+    (hq : t.at? q = some (.step d ins)) :
+    (∃ x ∈ (layout t).cells, x.path = q) ∧
+    ∀ x ∈ (layout t).cells, x.path = q →
+      x.kind = .step ∧
+      x.row = (region (layout t) q).top ∧ x.row + x.rows = (region (layout t) q).bottom ∧
+      x.col + x.cols = (region (layout t) q).right ∧
+      (∀ i, i < ins.length → (region (layout t) (q ++ [i])).left = (region (layout t) q).left ∧
+        (region (layout t) (q ++ [i])).right = x.col) ∧
+      (region (layout t) (q ++ [0])).top = (region (layout t) q).top ∧
+      (∀ i, i + 1 < ins.length →
+        (region (layout t) (q ++ [i + 1])).top = (region (layout t) (q ++ [i])).bottom) ∧
+      (region (layout t) (q ++ [ins.length - 1])).bottom = (region (layout t) q).bottom ∧
+      (q = [] → x.cols = 1) :=
+  step_geometry' t (wf_eq t ▸ h) q d ins hq
+
+/-- C02.3 (titles): the header cell of the titled sub recipe at `q` exists, is one row high, spans the full width
+    of the region of `q` in its first row, and the body's region is the rest of the region, directly below -/
+theorem header_geometry (t : Tree) (h : wf t = true) (q : List Nat) (b : Tree) (ns : List SVS)
+    (hq : t.at? q = some (.sub b ns true)) (h1 : ns.length = 1) :
+    (∃ x ∈ (layout t).cells, x.path = q) ∧
+    ∀ x ∈ (layout t).cells, x.path = q →
+      x.kind = .header ∧
+      x.row = (region (layout t) q).top ∧ x.rows = 1 ∧
+      x.col = (region (layout t) q).left ∧ x.col + x.cols = (region (layout t) q).right ∧
+      region (layout t) (q ++ [0]) =
+        ⟨(region (layout t) q).top + 1, (region (layout t) q).left,
+         (region (layout t) q).bottom, (region (layout t) q).right⟩ := by
+  obtain ⟨h2, h3⟩ := header_geometry' t (wf_eq t ▸ h) q b ns hq h1
+  refine ⟨h2, fun x hx hp => ?_⟩
+  obtain ⟨a1, a2, a3, a4, a5, a6⟩ := h3 x hx hp
+  refine ⟨a1, a2, a3, a4, a5, ?_⟩
+  rw [region_eq, a6]; rfl
+
+/-- an untitled single-output sub recipe has no cell of its own; its region is its body's region -/
+theorem untitled_geometry (t : Tree) (h : wf t = true) (q : List Nat) (b : Tree) (ns : List SVS)
+    (hq : t.at? q = some (.sub b ns false)) (h1 : ns.length = 1) :
+    region (layout t) (q ++ [0]) = region (layout t) q ∧ ∀ x ∈ (layout t).cells, x.path ≠ q := by
+  obtain ⟨h2, h3⟩ := untitled_geometry' t (wf_eq t ▸ h) q b ns hq h1
+  exact ⟨by rw [region_eq, region_eq, h2], h3⟩
+
+/-- C02.3 (outputs): the outputs cell of the sub recipe at `q` exists, spans all rows of the region of `q` at its
+    right edge, and the body's region is the rest of the region, to its left; at the root it is one column wide -/
+theorem outputs_geometry (t : Tree) (h : wf t = true) (q : List Nat) (b : Tree) (ns : List SVS) (sh : Bool)
+    (hq : t.at? q = some (.sub b ns sh)) (h1 : ns.length ≠ 1) :
+    (∃ x ∈ (layout t).cells, x.path = q) ∧
+    ∀ x ∈ (layout t).cells, x.path = q →
+      x.kind = .outputs ∧
+      x.row = (region (layout t) q).top ∧ x.row + x.rows = (region (layout t) q).bottom ∧
+      x.col + x.cols = (region (layout t) q).right ∧
+      region (layout t) (q ++ [0]) =
+        ⟨(region (layout t) q).top, (region (layout t) q).left, (region (layout t) q).bottom, x.col⟩ ∧
+      (q = [] → x.cols = 1) := by
+  obtain ⟨h2, h3⟩ := outputs_geometry' t (wf_eq t ▸ h) q b ns sh hq h1
+  refine ⟨h2, fun x hx hp => ?_⟩
+  obtain ⟨a1, a2, a3, a4, a5, a6⟩ := h3 x hx hp
+  refine ⟨a1, a2, a3, a4, ?_, a6⟩
+  rw [region_eq, a5]; rfl
+
+/-- non-vacuity: a step with two inputs, the second a titled sub recipe -/
+def exTree : Tree := .step [] [.ingredient [] none, .sub (.ingredient [] none) [[]] true]
+example : wf exTree = true := by decide
+example : Tiles (layout exTree) := layout_tiles exTree (by decide)
+example : (layout exTree).h = 3 ∧ (layout exTree).w = 2 := by decide
+example : ((layout exTree).cells.map fun c => (c.path, c.kind, c.row, c.col, c.rows, c.cols)) =
+    [([0], .ingredient, 0, 0, 1, 1), ([1], .header, 1, 0, 1, 1), ([1, 0], .ingredient, 2, 0, 1, 1),
+     ([], .step, 0, 1, 3, 1)] := by decide
+example : drawn [] exTree = [([0], .ingredient), ([1], .header), ([1, 0], .ingredient), ([], .step)] := by decide
+example : region (layout exTree) [] = ⟨0, 0, 3, 2⟩ ∧ region (layout exTree) [0] = ⟨0, 0, 1, 1⟩ ∧
+    region (layout exTree) [1] = ⟨1, 0, 3, 1⟩ ∧ region (layout exTree) [1, 0] = ⟨2, 0, 3, 1⟩ := by decide
+example := region_tiles exTree (by decide) [1] _ rfl
+example := step_geometry exTree (by decide) [] _ _ rfl
+example := header_geometry exTree (by decide) [1] _ _ rfl rfl
+
 end RG.C02
